@@ -725,7 +725,7 @@ Proof.
   unfold to_offline. destruct (k_wsem c);
     try (apply lsat_bind_any; [apply tell_l; exact I|]; intros _; apply lsat_ret;
          rewrite rp_break_pending; reflexivity).
-  apply lsat_ret. reflexivity.
+  apply lsat_bind_any; [apply tell_l; exact I|]. intros _. apply lsat_ret. reflexivity.
 Qed.
 Lemma off_ret_l {A} c c1 (r : A) :
   rp c1 = rp c -> lsat (bind (to_offline c1) (fun c => ret (c, r))) (gp c).
